@@ -163,6 +163,9 @@ def replay_counterexample(h, r, scratch, prop, logdir):
 def replay_file(path):
     """Re-run a recorded counterexample against /repo's current tree. exit 1 if it still fails."""
     rec = json.load(open(path))
+    if rec.get("kind") == "smt":
+        from . import smt as SMT
+        return SMT.replay_file(rec)
     import plan as PLAN
     h = PLAN.BY_NAME[rec["harness"]]
     scratch = "/var/tmp/sonic-verif-replay.%d" % os.getpid()
